@@ -22,7 +22,7 @@ func init() {
 			"through five routes (attacker tx with own authority, attacker tx naming the gov authority, proposal with wrong authority, real x/gov proposal with votes executed when the simulated voting period ends, direct handler call with any authority string); " +
 			"after every message and every EndBlock: parameters changed only by a direct call or a passed proposal carrying the exact gov authority, stored parameters pass Validate(), the minter's current period exists, the vesting denom is unchanged while pools exist, rejected updates leave the bytes identical. " +
 			"non-trivial = at least one proposal passed and changed parameters and at least one update was refused; distinct = hash of (route, message type, outcome) set",
-		Quick:      Tier{Runs: 400, BudgetSec: 50},
+		Quick:      Tier{Runs: 1500, BudgetSec: 50},
 		Thorough:   Tier{Runs: 25000, BudgetSec: 780},
 		RunSeed:    c13RunSeed,
 		Replay:     c13Replay,
